@@ -410,7 +410,8 @@ func monitorStream(which string) StreamMonitor {
 			case "ack":
 				if op.I < len(s.ctxs) {
 					cx := s.ctxs[op.I]
-					inRange := s.first <= cx.vb && cx.vb <= s.last && (s.open || s.closedWin)
+					// while the stream is closed an acknowledgement moves nothing (there is no session it belongs to)
+					inRange := s.first <= cx.vb && cx.vb <= s.last && s.open
 					// order discipline of this vBucket's acknowledgements
 					if cx.session != s.session {
 						s.oooAck[cx.vb] = true
